@@ -267,6 +267,10 @@ func c09Scenarios() []*concScenario {
 				h.StartHunt(target)
 				h.StopHunt(target)
 			},
+			func() {
+				h.PrintTable()
+				h.FindRouter(env.RouterLLA)
+			},
 		)
 		h.Close()
 		vsched.WaitIdle()
@@ -432,6 +436,37 @@ func c09Scenarios() []*concScenario {
 		closeSession(x, s)
 	}, sessionPost)
 
+	// H7c: dns handler: the packet loop || Close of the handler
+	add("H7c", 3, func(x *concExec) {
+		concReset()
+		s, _ := concSession()
+		x.data["session"] = s
+		h := dns.VerifNew(s)
+		name := refnet.DNSName("www.example.com")
+		resp := append(refnet.DNSHeader(7, 0x8180, 1, 1, 0, 0), refnet.DNSQuestion(name, 1, 1)...)
+		resp = append(resp, refnet.DNSRR([]byte{0xc0, 12}, 1, 1, 60, []byte{1, 2, 3, 4})...)
+		dnsFrame := refnet.Eth(env.MAC1, env.RouterMAC, 0x0800, refnet.IP4(ip4rtr, ip4a, 17, refnet.UDP(53, 40000, resp), refnet.IP4Opt{}))
+		mname := refnet.DNSName("host1.local")
+		mresp := append(refnet.DNSHeader(9, 0x8400, 0, 1, 0, 0), refnet.DNSRR(mname, 1, 1, 120, []byte{192, 168, 0, 10})...)
+		mdnsFrame := refnet.Eth(env.McastMAC, env.MAC1, 0x0800, refnet.IP4(ip4a, netip.MustParseAddr("224.0.0.251"), 17, refnet.UDP(5353, 5353, mresp), refnet.IP4Opt{}))
+		threads(
+			func() {
+				if f, err := s.Parse(append([]byte(nil), dnsFrame...)); err == nil {
+					h.ProcessDNS(f)
+				}
+				if f, err := s.Parse(append([]byte(nil), mdnsFrame...)); err == nil {
+					h.ProcessMDNS(f)
+				}
+			},
+			func() {
+				h.Close()
+			},
+		)
+		vsched.WaitIdle()
+		x.observe("closed")
+		closeSession(x, s)
+	}, sessionPost)
+
 	// H8: Session.Close || purge with a host going offline || packet loop
 	add("H8", 4, func(x *concExec) {
 		concReset()
@@ -482,7 +517,7 @@ func raFrame(mac []byte, src netip.Addr, flags byte, lifetime uint16, options []
 
 func c09Run(c *core.Ctx, args []string) {
 	c.Res.Level = "model_checking"
-	c.Res.Rule = "stateless DFS over every schedule of each harness H1..H11, H5c, H6b (2-3 API/packet-loop threads plus the goroutines the code starts itself plus the clock) up to the deviation bound (thorough: each harness also with its threads started in the two rotated orders); every execution runs to completion under the controlled scheduler; oracles: no deadlock, no panic, no data race (race detector build, scheduler hand-offs invisible to it), table invariant at the final quiescent point, no goroutine left after Close. distinct = distinct observation vectors"
+	c.Res.Rule = "stateless DFS over every schedule of each harness H1..H11, H5c, H6b, H7c (2-3 API/packet-loop threads plus the goroutines the code starts itself plus the clock) up to the deviation bound (thorough: each harness also with its threads started in the two rotated orders); every execution runs to completion under the controlled scheduler; oracles: no deadlock, no panic, no data race (race detector build, scheduler hand-offs invisible to it), table invariant at the final quiescent point, no goroutine left after Close. distinct = distinct observation vectors"
 	c.Res.Assumptions = []string{"scheduling points at every lock, channel, spawn, timer and connection write of the instrumented packages; unsynchronised accesses are caught by the race detector on the explored schedules rather than interleaved", "bounded by the deviation (preemption) bound and the clock horizon; at most 3 harness threads"}
 	name := strings.TrimSuffix(c.Job, ".race")
 	bound := 2 // both tiers; the thorough tier adds the rotated thread orders of every harness
